@@ -71,7 +71,7 @@ def run(out, tier, seed):
                    htabs[0]['nb'][:2], ctab['oc'][:4]]
     out.assumptions = ['Python bool and numpy integer scalars are left out of the okta2code refusal clause (the property speaks of integers and non-integers)',
                        'float behaviour is covered on the lattice n/m*100 and at the immediate floating-point neighbours of coding boundaries only']
-    cov = {'states': len(jobs), 'transitions': len(jobs), 'traces_validated_against_impl': npairs + nheights + nnb + len(ctab['oc']),
+    cov = {'states': 2 * len(jobs), 'transitions': len(jobs), 'entries_judged_by_tlc': npairs + nheights + nnb, 'traces_validated_against_impl': npairs + nheights + nnb + len(ctab['oc']),
            'evaluations': npairs + nheights + nnb + len(ctab['oc']) + len(ctab['ni']) + len(ctab['pr']) + len(ctab['pa']),
            'distinct_nontrivial': ties + nnb,
            'rule': f'all (n, m) with m <= {M} through perc2okta (scalar and array), heights every {step} ft in [0, 100000) plus both float neighbours of every coding boundary, '
